@@ -29,7 +29,20 @@ class TLCResult(object):
 _noise = re.compile(r'^(Parsing file|Semantic processing|Linting of module|Progress\(|Checkpointing|Starting\.\.\.|Finished in|Computing initial|Finished computing|TLC2 Version|Running |Model checking completed|The depth of|  calculated|  based on the actual|Warning: Please run|\(TLC | *$|End of statistics|The coverage|<Init|<Next|Implied-temporal|Checking temporal|Finished checking temporal|Simulation using|The number of states generated|Generated \d+ traces)')
 
 
-def run(module, cfg=None, env=None, workers=16, timeout=3600, simulate=None, depth=None, seed=None,
+def run(module, cfg=None, **kw):
+    """run TLC; an abnormal end of the JVM that is not an error of the specification (rc 255: I/O trouble, a worker
+    race, memory pressure while other jobs share the machine) is retried once before it counts as a failure"""
+    try:
+        return _run(module, cfg, **kw)
+    except TLCError as e:
+        msg = str(e)
+        if 'timed out' in msg or 'Parsing or semantic analysis failed' in msg or 'Parse Error' in msg or 'is violated' in msg:
+            raise
+        time.sleep(2)
+        return _run(module, cfg, **kw)
+
+
+def _run(module, cfg=None, env=None, workers=16, timeout=3600, simulate=None, depth=None, seed=None,
         coverage=False, extra=(), heap=None, deadlock=False):
     """Run TLC on spec/<module>.tla with spec/<cfg> (default <module>.cfg)."""
     workers = int(os.environ.get('VERIF_TLC_WORKERS', workers))
